@@ -1,15 +1,4 @@
-import os
-
 from lib import flow, vlib
-
-# deviations found on the pinned tree, proposed as KNOWN_FINDINGS.json entries (id, property, what)
-PROPOSED_KF = [
-    dict(id='C18_CREATE_FAIL_LOGS_REQUEST', property='C18', what='a failed or rejected create logs the whole request unmasked (cdc_impl.go:412)'),
-    dict(id='C18_CONNECT_FAIL_LOGS_PARAM', property='C18', what='a failed connection probe logs the connect parameters with token / password (cdc_impl.go:684)'),
-    dict(id='C18_SASL_NOT_MASKED', property='C18', what='GetRequestInfo does not mask the Kafka SASL fields: every Kafka create logs them (server.go:134,148)'),
-    dict(id='C18_RELOAD_FAIL_LOGS_TASK', property='C18', what='ReloadTask logs the unmasked task info when a task cannot be started (cdc_impl.go:210)'),
-    dict(id='C18_DECODE_ERROR_ECHO', property='C18', what='a credential field of the wrong JSON type is echoed by the decode error into the log (and the answer) (server.go:130)'),
-]
 
 ASSUME = [
     "level fault_enumeration: TLC enumerates the create variant (which credential fields are set), the API sequence and "
@@ -49,11 +38,6 @@ C = dict(
 
 
 def run(tier, replay=None):
-    if os.environ.get("VERIF_ASSUME_KF"):
-        # selftest aid (selftest/C18.md): treat the proposed findings as if they were recorded, so that a run on the
-        # pinned tree is green and a mutant shows up as a NEW violation.  Never set in registered commands.
-        orig = vlib.known_findings
-        vlib.known_findings = lambda prop: orig(prop) + [k for k in PROPOSED_KF if k["property"] == prop]
     if not replay:
         r = vlib.run_tlc("Secrets", "Secrets_AsBuilt.cfg", workers=4, timeout=300)
         if not r.violated:
